@@ -788,7 +788,9 @@ func (a *FA) AtomValue(atom string) ssa.Value { return a.atomVal[atom] }
 // LoopIV describes "idx runs 0,1,2,... while idx < N".
 type LoopIV struct {
 	Phi   *ssa.Phi
-	First int64 // value of idx in the first iteration
+	First int64 // value of idx in the first iteration (valid if FirstConst)
+	FirstLin Lin // same, as a linear form (parameters allowed)
+	FirstConst bool
 	Step  int64
 	N     Lin   // exclusive upper bound established by the dominating guard (valid if HasN)
 	HasN  bool
@@ -819,23 +821,24 @@ func (a *FA) InductionOf(idx ssa.Value, use *ssa.BasicBlock) (*LoopIV, bool) {
 		el := a.Lin(e)
 		if d := el.Sub(pl); d.IsConst() && d.K != 0 {
 			o := a.Lin(phi.Edges[1-i])
-			if !o.IsConst() {
-				return nil, false
-			}
 			iv.Step = d.K
-			// idx = phi + (L - phi); first = init + (L-phi).K  (L-phi must be constant)
+			// idx = phi + (L - phi); first = init + (L-phi)
 			rest := L.Sub(pl)
-			if !rest.IsConst() {
-				return nil, false
+			iv.FirstLin = o.Add(rest)
+			iv.FirstConst = iv.FirstLin.IsConst()
+			if !iv.FirstConst {
+				if _, dep := iv.FirstLin.T[phiAtom]; dep {
+					return nil, false
+				}
 			}
-			iv.First = o.K + rest.K
+			iv.First = iv.FirstLin.K
 			found = true
 		}
 	}
 	if !found {
 		return nil, false
 	}
-	iv.Facts = append(iv.Facts, fmt.Sprintf("index %s: first value %d, step %d", L, iv.First, iv.Step))
+	iv.Facts = append(iv.Facts, fmt.Sprintf("index %s: first value %s, step %d", L, iv.FirstLin, iv.Step))
 	// loop guard: a dominating condition D op 0 where D = idx - N
 	for _, c := range a.Conds(use) {
 		D, op, ok := a.CondRel(c)
